@@ -7,6 +7,7 @@ file), PC-relative fields decoded back to the target address, and - for an opera
 beyond an encodable limit - an error on exactly that line with nothing emitted.
 """
 import hashlib
+import os
 from vf import engine, asl
 from vf.gen import composite
 from vf import isa as isa_pkg
@@ -88,6 +89,9 @@ REL_FORMS = {n: [fi for fi, f in enumerate(I.forms) if any(o.kind == "rel" and o
              for n, I in ISAS.items()}
 
 
+# storage address minus execution address for batches assembled under PHASE
+PHASES = [0x100, -0x100, 0x10, -0x10, 0x1000, 0x800, -0x800]
+
 # larger tables get more batches
 WEIGHTED = [(3 + len(ISAS[n].forms) // 60, n) for n in NAMES]
 
@@ -122,7 +126,11 @@ def strategy_(d, tier):
         sty = d.int(0, 511)
         off = d.choice(I.offsets) if len(I.offsets) > 1 else I.offsets[0]
         items.append([fi, vals, sty, off])
-    return dict(isa=name, mode=mode, items=items)
+    case = dict(isa=name, mode=mode, items=items)
+    if d.int(0, 99) < 15:
+        # the whole batch stored away from where it is meant to run
+        case["phase"] = d.choice(PHASES)
+    return case
 
 
 def strategy(tier):
@@ -199,6 +207,12 @@ def fixed_cases(tier):
                             edgerej.append([fi, list(vals), (k * 7 + fi) % 64, None])
         out += _chunks(name, "ok", okitems) + _chunks(name, "rej", rejitems) + _chunks(name, "rejfwd", fwditems)
         out += _edge_chunks(I, "ok", edgeitems) + _edge_chunks(I, "rej", edgerej)
+        # the boundary batches once more under PHASE (quick: a third of the tables per seed)
+        ni = NAMES.index(name)
+        if tier != "quick" or ni % 3 == engine.seed_from_env() % 3:
+            ph = PHASES[ni % len(PHASES)]
+            for ch in _chunks(name, "ok", okitems) + _chunks(name, "rejfwd", fwditems) + _edge_chunks(I, "ok", edgeitems):
+                out.append(dict(ch, phase=ph))
         if I.straddle:
             # program memory is just as large as the reach of the long relative forms: visit their limits
             # once from the first and once from the last slots of a batch
@@ -223,6 +237,7 @@ def build_program(case):
     head = ["\tcpu\t" + I.cpu] + list(I.prologue)
     pre, body, post = [], [], []
     infos = []
+    P = phase_shift(case)
     for idx, (fi, vals, sty, off) in enumerate(case["items"]):
         f = I.forms[fi]
         pc = I.base + idx * I.slot + off
@@ -274,6 +289,14 @@ def build_program(case):
             m, _, rest = info["text"].partition(" ")
             info["text"] = m + ".W " + rest
             info["wsuffix"] = True
+        if P:
+            # stored at pc + P, meant to run at pc: everything the instruction set defines relative to "the
+            # address of the instruction" (branches, pages, alignment) refers to pc
+            body.append(("\torg\t" + lit(I, pc + P, True), None))
+            body.append(("\tphase\t" + lit(I, pc, True), None))
+            body.append(("\t" + info["text"], info))
+            body.append(("\tdephase", None))
+            continue
         body.append(("\torg\t" + lit(I, pc, True), None))
         body.append(("\t" + info["text"], info))
     lines = head + pre
@@ -283,6 +306,21 @@ def build_program(case):
             info["line"] = len(lines)
     lines += post
     return "\n".join(lines) + "\n", infos
+
+
+def phase_shift(case):
+    """physical minus logical address of every instruction of the batch (0: no PHASE)"""
+    P = case.get("phase") or 0
+    if os.environ.get("VERIF_C14_PHASE"):
+        P = int(os.environ["VERIF_C14_PHASE"], 0)
+    if not P or not case["items"]:
+        return 0
+    I = ISAS[case["isa"]]
+    lo = I.base
+    hi = I.base + len(case["items"]) * I.slot
+    if lo + P < 0 or hi + P > I.maxaddr:
+        return 0
+    return P
 
 
 def lit(I, v, hexa):
@@ -309,6 +347,7 @@ def execute(case):
     I = ISAS[case["isa"]]
     mode = case["mode"]
     src, infos = build_program(case)
+    P = phase_shift(case)
     live = [i for i in infos if i["cls"] != "excl"]
     nexcl = len(infos) - len(live)
     classes = []
@@ -327,6 +366,8 @@ def execute(case):
     agg += ["items-explicit-.W"] * sum(1 for i in live if i.get("wsuffix"))
     agg += ["items-with-rel"] * sum(1 for i in live if i["target"] is not None)
     agg += ["excluded-by-classify"] * nexcl
+    if P:
+        agg += ["items-under-phase"] * len(live)
     classes += agg + ["batch:" + I.name + ":" + mode]
     key = None
     if ntkeys:
@@ -373,13 +414,14 @@ def execute(case):
         for i in live:
             f = i["form"]
             exp = bytes(f.enc(i["pc"], i["vals"]))
-            lo = i["pc"] * g
+            lo = (i["pc"] + P) * g
+            hi = (i["end"] + P) * g
             got = bytearray()
             a = lo
-            while (1, a) in bm and a < i["end"] * g:
+            while (1, a) in bm and a < hi:
                 got.append(bm[(1, a)])
                 a += 1
-            stray = [x for x in range(lo, i["end"] * g) if (1, x) in bm and x >= a]
+            stray = [x for x in range(lo, hi) if (1, x) in bm and x >= a]
             got = bytes(got)
             same = got == exp
             if not same and f.dontcare and len(got) == len(exp):
